@@ -9,7 +9,7 @@ CHECKED_EXTRACT = ["copy", "copy_hash", "hard_link", "hard_link_hash", "reflink"
 UNCHECKED_EXTRACT = ["copy_unchecked", "copy_hash_unchecked", "hard_link_unchecked", "hard_link_hash_unchecked",
                      "reflink_unchecked", "reflink_hash_unchecked"]
 
-BUFSETS = [[1], [7], [1024], [8192], [65536], [7, 0, 1024], [1, 8192]]
+BUFSETS = [[1], [7], [1024], [8192], [65536], [7, 0, 1024], [1, 8192], [16, 8192, 3], [100, 65536], [4096, 1, 16384]]
 
 
 def available(name, mode):
